@@ -171,8 +171,9 @@ def run_case(case, rng):
         """extends the learners' DEFAULT listener (so that event_listener_results is the library's own) and adds the probes"""
         def __init__(self):
             td.EpisodeRewardEventListener.__init__(self)
-            state["ep_reward_sums"] = []
-            state["ep_acc"] = 0.0
+            if not state.get("warmup"):
+                state["ep_reward_sums"] = []
+                state["ep_acc"] = 0.0
 
         def end_of_timestep(self, lv):
             td.EpisodeRewardEventListener.end_of_timestep(self, lv)
@@ -258,7 +259,11 @@ def run_case(case, rng):
         if extra:
             sib.flag = set(sib.flag) | {rng.choice(extra)}
             state["warmup"] = True
-            case.call(f"{learner_name}.train_on(sibling)", learner.train_on, Bd.build(sib, "subclass"), facts=facts)
+            r0_ = case.call(f"{learner_name}.train_on(sibling)", learner.train_on, Bd.build(sib, "subclass"), facts=facts)
+            if r0_ is not case.FAIL and rng.random() < 0.7:
+                # ... and the sibling's result is USED (its policy read at every state) before the learner is trained again
+                case.call("policy.action_dist(sibling's result)", lambda: [r0_.policy.action_dist(s_) for s_ in sib.states], facts=facts)
+                case.count("earlier_results_read_before_reuse")
             sh1.clear()
             sh2.clear()
             state.update(prev_ns=None, steps=0, episodes=0, ep_steps=0, warmup=False)
@@ -266,6 +271,19 @@ def run_case(case, rng):
     res = case.call(f"{learner_name}.train_on", learner.train_on, train_target, facts=facts)
     if res is case.FAIL:
         return
+    if rng.random() < 0.15 and not near_tie:
+        # the learner goes on to another problem (opposite rewards, same labels) AFTER this result was returned: the result
+        # judged below - Q-table and policy - is the one returned for THIS problem
+        import copy as _copy2
+        later = _copy2.deepcopy(sp)
+        for k_ in later.R:
+            later.R[k_] = -later.R[k_] + 1.0
+        state["warmup"] = True
+        r_later = case.call(f"{learner_name}.train_on(another problem afterwards)", learner.train_on, Bd.build(later, "subclass"), facts=facts)
+        if r_later is not case.FAIL:
+            case.call("policy.action_dist(later result)", lambda: [r_later.policy.action_dist(s_) for s_ in later.states], facts=facts)
+        state["warmup"] = False
+        case.count("results_judged_after_the_learner_was_reused")
     branch = any(len(sp.succ(s, a)) >= 2 for s in sp.states for a in sp.acts[s]) or any(len(sp.acts[s]) >= 2 for s in sp.states)
     case.nontrivial = state["steps"] >= 3 and branch
     case.sig(learner_name, len(sp.states), gamma, alpha, eps, temp, episodes, seed, q0desc, state["steps"])
